@@ -1,7 +1,7 @@
 SPECIFICATION Spec
 CONSTANTS
   RealPts <- PtsSigned
-  Leaves <- L_Leaves
+  Leaves <- L_LeavesQ
   MaxLeaves = 2
   MaxOps = 2
   UnOps <- L_UnOps
